@@ -540,25 +540,87 @@ func c20Wrap(c *Ctx, f *ssa.Function) {
 			acc = phi
 		}
 	}
-	okIdx := idx != nil && descendingOver(f, mws)
-	if okIdx {
-		// ... down to and including index 0: the loop continues exactly while i >= 0
-		hif, _ := head.Instrs[len(head.Instrs)-1].(*ssa.If)
-		okIdx = hif != nil
-		if hif != nil {
-			for _, iv := range []int64{-1, 0, 1, 2} {
-				v, ok := evalSmall(hif.Cond, map[ssa.Value]int64{idx: iv}, 0)
-				cont := v != 0
-				if !body[hif.Block().Succs[0]] {
-					cont = !cont
+	// the index sequence of the loop, evaluated for slices of 0..5 elements:
+	// it must be n-1, n-2, ..., 0 (the counter, the bound and the index are
+	// affine in the counter and len(middlewares), so agreement on these six
+	// lengths is agreement for all)
+	okIdx, whyIdx := idx != nil, "no integer loop counter"
+	if idx != nil {
+		var lens []ssa.Value
+		core.EachInstr(f, func(in ssa.Instruction) {
+			if call, ok := in.(*ssa.Call); ok {
+				if b, isB := call.Call.Value.(*ssa.Builtin); isB && (b.Name() == "len" || b.Name() == "cap") && len(call.Call.Args) == 1 && call.Call.Args[0] == ssa.Value(mws) {
+					lens = append(lens, call)
 				}
-				if !ok || cont != (iv >= 0) {
-					okIdx = false
+			}
+		})
+		// the element whose Wrap is called in the loop: mws[indexExpr]
+		var indexExpr ssa.Value
+		for b := range body {
+			for _, in := range b.Instrs {
+				if ia, ok := in.(*ssa.IndexAddr); ok && ia.X == ssa.Value(mws) {
+					indexExpr = ia.Index
 				}
 			}
 		}
+		hif, _ := head.Instrs[len(head.Instrs)-1].(*ssa.If)
+		var entryV, backV ssa.Value
+		for i, e := range idx.Edges {
+			if body[head.Preds[i]] {
+				backV = e
+			} else {
+				entryV = e
+			}
+		}
+		if indexExpr == nil || hif == nil || entryV == nil || backV == nil {
+			okIdx, whyIdx = false, "the loop is not `counter; test at the head; mws[index(counter)]`"
+		}
+		for n := int64(0); okIdx && n <= 5; n++ {
+			env := map[ssa.Value]int64{}
+			for _, l := range lens {
+				env[l] = n
+			}
+			p, ok := evalSmall(entryV, env, 0)
+			var seq []int64
+			for steps := int64(0); ok && steps <= n+1; steps++ {
+				env[idx] = p
+				cv, okC := evalSmall(hif.Cond, env, 0)
+				if !okC {
+					ok = false
+					break
+				}
+				cont := cv != 0
+				if !body[hif.Block().Succs[0]] {
+					cont = !cont
+				}
+				if !cont {
+					break
+				}
+				iv, okI := evalSmall(indexExpr, env, 0)
+				if !okI {
+					ok = false
+					break
+				}
+				seq = append(seq, iv)
+				p, ok = evalSmall(backV, env, 0)
+			}
+			if !ok {
+				okIdx, whyIdx = false, "the counter, its bound or the index is not an affine expression of the counter and len(middlewares)"
+				break
+			}
+			good := int64(len(seq)) == n
+			for k := range seq {
+				good = good && seq[k] == n-1-int64(k)
+			}
+			if !good {
+				okIdx, whyIdx = false, sprintf("for %d middlewares the loop wraps in the index order %v, not %d..0", n, seq, n-1)
+			}
+		}
 	}
-	c.check(okIdx, "C20.wrap.order", f, "for i := len(middlewares)-1; i >= 0; i--", nil, "the last middleware wraps first, so the first one is outermost and receives the request first")
+	if okIdx {
+		whyIdx = "index sequence evaluated for 0..5 middlewares"
+	}
+	c.check(okIdx, "C20.wrap.order", f, "the loop wraps with middlewares[n-1], ..., middlewares[0] in that order", nil, "the last middleware wraps first, so the first one is outermost and receives the request first. "+whyIdx)
 	okAcc := acc != nil
 	if acc != nil {
 		for i, e := range acc.Edges {
